@@ -192,6 +192,12 @@ def build_harness():
     return VH
 
 
+class HangDetected(Exception):
+    def __init__(self, msg, args):
+        super().__init__(msg)
+        self.vh_args = args
+
+
 def vh(args, stdin_path=None, stdout_path=None, timeout=3600, check=True, env=None):
     """Run the harness binary.  Returns CompletedProcess.  A crash (signal / abort) of the harness
     is reported to the caller through returncode; callers treat it as data when the code under
@@ -214,6 +220,10 @@ def vh(args, stdin_path=None, stdout_path=None, timeout=3600, check=True, env=No
             fin.close()
         if stdout_path:
             fout.close()
+    if p.returncode == 3 and b"VH-HANG" in (p.stderr or b""):
+        # the harness's watchdog: a call of the code under test did not return (util.rs).  Data, not a tool error.
+        msg = [l for l in p.stderr.decode(errors="replace").splitlines() if l.startswith("VH-HANG")][-1]
+        raise HangDetected(f"vh {' '.join(map(str, args))}: {msg}", [str(a) for a in args])
     if check and p.returncode != 0:
         log(p.stderr.decode(errors="replace")[-4000:])
         raise ToolError(f"harness failed rc={p.returncode}: vh {' '.join(map(str,args))}")
@@ -499,6 +509,13 @@ def main_wrapper(fn, pid, tier, level="model_checking"):
     ctx = Ctx(pid, tier, level)
     try:
         fn(ctx)
+        return ctx.finish()
+    except HangDetected as e:
+        # total functions that do not return break every property they are anchored in; the replay is the harness
+        # command (deterministic in its arguments) - run it again to watch the same call hang
+        ctx.violation(f"a call of the code under test did not return: {e}",
+                      {"kind": "hang", "harness_command": e.vh_args, "seed": ctx.seed,
+                       "how": "harness/target/release/vh <harness_command>  (VH_CALL_LIMIT_S sets the patience)"})
         return ctx.finish()
     except ToolError as e:
         log(f"TOOL-ERROR [{pid}]: {e}")
